@@ -112,6 +112,36 @@ fn lambert_w(x: f64) -> f64 {
     w
 }
 
+/// asinh, acosh and atanh from ln, ln_1p and sqrt (the fdlibm formulas). std's versions lose accuracy:
+/// atanh(-0.999999999) is off by 5e-9, acosh(1.0000000000000002) by 4e-9 and acosh(1e200) is inf.
+fn asinh(x: f64) -> f64 {
+    let a = x.abs();
+    let r = if a.is_nan() || a.is_infinite() {
+        a
+    } else if a > 1e150 {
+        a.ln() + std::f64::consts::LN_2
+    } else {
+        (a + a * a / (1.0 + (a * a + 1.0).sqrt())).ln_1p()
+    };
+    r.copysign(x)
+}
+
+fn acosh(x: f64) -> f64 {
+    if x.is_nan() || x < 1.0 {
+        f64::NAN
+    } else if x > 1e150 {
+        x.ln() + std::f64::consts::LN_2
+    } else {
+        let t = x - 1.0;
+        (t + (2.0 * t + t * t).sqrt()).ln_1p()
+    }
+}
+
+fn atanh(x: f64) -> f64 {
+    let a = x.abs();
+    (0.5 * (2.0 * a / (1.0 - a)).ln_1p()).copysign(x)
+}
+
 pub fn eval(expr: Node) -> Result<f64, Box<dyn error::Error>> {
     #[cfg(feature = "verif_hooks")]
     crate::verif_hooks::tick(crate::verif_hooks::Point::EvalEntry);
@@ -188,9 +218,9 @@ pub fn eval(expr: Node) -> Result<f64, Box<dyn error::Error>> {
         Asin(sub_expr) => Ok(eval(*sub_expr)?.asin()),
         Acos(sub_expr) => Ok(eval(*sub_expr)?.acos()),
         Atan(sub_expr) => Ok(eval(*sub_expr)?.atan()),
-        Arsinh(sub_expr) => Ok(eval(*sub_expr)?.asinh()),
-        Arcosh(sub_expr) => Ok(eval(*sub_expr)?.acosh()),
-        Artanh(sub_expr) => Ok(eval(*sub_expr)?.atanh()),
+        Arsinh(sub_expr) => Ok(asinh(eval(*sub_expr)?)),
+        Arcosh(sub_expr) => Ok(acosh(eval(*sub_expr)?)),
+        Artanh(sub_expr) => Ok(atanh(eval(*sub_expr)?)),
         Sqrt(sub_expr) => Ok(eval(*sub_expr)?.sqrt()),
         Ln(sub_expr) => Ok(eval(*sub_expr)?.ln()),
         Lb(sub_expr) => Ok(eval(*sub_expr)?.log(2.0)),
